@@ -14,7 +14,8 @@ import sys
 import tempfile
 import time
 
-ENGINE_SRC = '/repo/rbql-py/rbql/rbql_engine.py'
+from vf.paths import REPO
+ENGINE_SRC = REPO + '/rbql-py/rbql/rbql_engine.py'
 
 
 class Unsupported(Exception):
